@@ -6,6 +6,8 @@ with any depth, and a crash at any write of a Save or Clean.  No bound on the le
 number of generations or the order of the operations.
 -/
 import BRV.Proofs.RepoCrash
+import BRV.Proofs.RepoExample
+import BRV.Proofs.LoadSound
 
 namespace BRV.Repo
 
@@ -59,12 +61,81 @@ structure PLin (r : Repo) (c : List HData) (k m : Nat) : Prop where
   gen : ∀ d, c[0]? = some d → r.cfg.genesisId = d.hdr.id
   store : StoreLin r.store c m
 
+/-! ### the write sequence of the main-chain files, event by event -/
+
+/-- a main-chain event that is consistent with the chain `c`: file `f` rewritten with chunk `f` of `c`, or
+    the file after the last one removed. -/
+def MainEvOf (c : List HData) : StoreEv → Prop
+  | .mainWrite f recs => recs = (c.drop (f * H)).take H
+  | .mainRemove f => f = c.length / H + 1
+  | _ => False
+
+theorem saveMainGo_evs : ∀ (hs : List HData) (r : Repo) (fn : Nat) (buf done : List HData),
+    done.length = fn * H + buf.length → buf.length < H → buf = done.drop (fn * H) →
+    ∃ M : List StoreEv,
+      (saveMainBranch.go hs r (fn : Int) (done.length : Int) buf).1.events = r.events ++ M ∧
+      ∀ e ∈ M, ∃ f, (f + 1) * H ≤ (done ++ hs).length ∧ e = .mainWrite f (((done ++ hs).drop (f * H)).take H) := by
+  intro hs
+  induction hs with
+  | nil => intro r fn buf done _ _ _; exact ⟨[], by simp [saveMainBranch.go], by simp⟩
+  | cons d rest ih =>
+    intro r fn buf done hlen hbuf hdrop
+    simp only [saveMainBranch.go]
+    have hdone' : (done ++ [d]).length = done.length + 1 := by simp
+    have hcast : ((done.length : Int) + 1) = ((done ++ [d]).length : Int) := by rw [hdone']; omega
+    have happ : done ++ d :: rest = (done ++ [d]) ++ rest := by simp
+    by_cases hfull : (done.length : Int) + 1 = ((fn : Int) + 1) * hpf
+    · rw [if_pos hfull]
+      have hfullN : done.length + 1 = (fn + 1) * H := by
+        rw [hpf_eq] at hfull
+        have : ((done.length + 1 : Nat) : Int) = (((fn + 1) * H : Nat) : Int) := by push_cast; omega
+        exact_mod_cast this
+      obtain ⟨M, hev, hM⟩ := ih (r.emit (.mainWrite (fn : Int).toNat (buf ++ [d]))) (fn + 1) [] (done ++ [d])
+        (by simp [hfullN]) H_pos (by rw [List.drop_eq_nil_of_le]; simp; omega)
+      have hcast2 : ((fn : Int) + 1) = ((fn + 1 : Nat) : Int) := by push_cast; rfl
+      rw [hcast, hcast2]
+      refine ⟨.mainWrite fn (buf ++ [d]) :: M, ?_, ?_⟩
+      · rw [hev]; simp [Repo.emit]
+      · intro e he
+        rcases List.mem_cons.mp he with rfl | he
+        · refine ⟨fn, by rw [happ, List.length_append, hdone']; omega, ?_⟩
+          congr 1
+          have e1 : (fn + 1) * H = fn * H + H := by rw [Nat.add_mul]; omega
+          have h1 : fn * H ≤ done.length := by omega
+          have hbl : (buf ++ [d]).length = H := by simp; omega
+          have hd2 : (done ++ d :: rest).drop (fn * H) = (buf ++ [d]) ++ rest := by
+            rw [List.drop_append_of_le_length h1, ← hdrop]; simp
+          rw [hd2, List.take_append_of_le_length (by omega), List.take_of_length_le (by omega)]
+        · obtain ⟨f, hf, hef⟩ := hM e he
+          exact ⟨f, by rw [happ]; exact hf, by rw [happ]; exact hef⟩
+    · rw [if_neg hfull]
+      obtain ⟨M, hev, hM⟩ := ih r fn (buf ++ [d]) (done ++ [d])
+        (by simp; omega)
+        (by
+          simp
+          have hnotfull : done.length + 1 ≠ (fn + 1) * H := by
+            intro he
+            apply hfull
+            rw [hpf_eq]
+            have : ((done.length + 1 : Nat) : Int) = (((fn + 1) * H : Nat) : Int) := by rw [he]
+            push_cast at this; omega
+          have : (fn + 1) * H = fn * H + H := by rw [Nat.add_mul]; omega
+          omega)
+        (by rw [hdrop, List.drop_append_of_le_length (by omega)])
+      rw [hcast]
+      refine ⟨M, hev, ?_⟩
+      intro e he
+      obtain ⟨f, hf, hef⟩ := hM e he
+      exact ⟨f, by rw [happ]; exact hf, by rw [happ]; exact hef⟩
+
+
 /-! ### `saveMainBranch` in the linear world -/
 
 theorem saveMain_lin (r : Repo) (c : List HData) (k m : Nat) (hp : PLin r c k m) :
     ∃ (r2 : Repo) (M : List StoreEv), saveMainBranch r = .ok r2 ∧
       FilesExact r2.store.main c (c.length / H + 1) ∧
-      (∀ e ∈ M, e.isMain = true) ∧ r2.events = r.events ++ M ∧ r2.store = M.foldl Store.apply r.store ∧
+      (∀ e ∈ M, e.isMain = true) ∧ (∀ e ∈ M, MainEvOf c e) ∧
+      r2.events = r.events ++ M ∧ r2.store = M.foldl Store.apply r.store ∧
       r2.arena = r.arena ∧ r2.branches = r.branches ∧ r2.longest = r.longest ∧ r2.heights = r.heights ∧
       r2.invalid = r.invalid ∧ r2.cfg = r.cfg ∧ r2.disableDifficulty = r.disableDifficulty ∧
       r2.disableSplit = r.disableSplit := by
@@ -155,7 +226,13 @@ theorem saveMain_lin (r : Repo) (c : List HData) (k m : Nat) (hp : PLin r c k m)
   obtain ⟨g1, g2, g3, g4, g5⟩ := saveMainGo_store_frame (c.drop k) r ((k / H : Nat) : Int) ((c.take k).length : Int) buf0
   obtain ⟨f1, f2, f3, f4, f5, f6⟩ := saveMainGo_frame (c.drop k) r ((k / H : Nat) : Int) ((c.take k).length : Int) buf0
   obtain ⟨M0, hM0, hev0, hst0⟩ := saveMainGo_events (c.drop k) r ((k / H : Nat) : Int) ((c.take k).length : Int) buf0
-  rw [List.take_append_drop] at hlen1 hdrop1 hfiles1
+  obtain ⟨M1, hev1, hM1⟩ := saveMainGo_evs (c.drop k) r (k / H) buf0 (c.take k)
+    (by rw [hdone_len, hbuflen]; exact hkdecomp) (by rw [hbuflen]; exact hmod) hbuf0eq
+  have hM01 : M0 = M1 := by
+    rw [hev0] at hev1
+    exact List.append_cancel_left hev1
+  subst hM01
+  rw [List.take_append_drop] at hlen1 hdrop1 hfiles1 hM1
   unfold saveMainBranch
   simp only
   rw [hpl, hfile, hstart]
@@ -171,10 +248,10 @@ theorem saveMain_lin (r : Repo) (c : List HData) (k m : Nat) (hp : PLin r c k m)
   subst hf1
   have hfn : ((fn1 : Int)).toNat = fn1 := by omega
   have hfn2 : ((fn1 : Int) + 1).toNat = fn1 + 1 := by omega
-  refine ⟨_, M0 ++ [.mainWrite fn1 buf, .mainRemove (fn1 + 1)], rfl, ?_, ?_, ?_, ?_, f1, f2, f3, f4, f5, f6, g4, g5⟩
-  · have hnf : c.length / H + 1 = fn1 + 1 := by
-      rw [hlen1]; rw [hH] at hbuf1 ⊢; omega
-    rw [hnf]
+  have hnf : c.length / H + 1 = fn1 + 1 := by
+    rw [hlen1]; rw [hH] at hbuf1 ⊢; omega
+  refine ⟨_, M0 ++ [.mainWrite fn1 buf, .mainRemove (fn1 + 1)], rfl, ?_, ?_, ?_, ?_, ?_, f1, f2, f3, f4, f5, f6, g4, g5⟩
+  · rw [hnf]
     intro f hf
     simp only [Repo.emit, Store.apply, hfn, hfn2]
     rw [lookup_filter_ne' _ _ _ (by omega), lookup_assocSet]
@@ -191,6 +268,16 @@ theorem saveMain_lin (r : Repo) (c : List HData) (k m : Nat) (hp : PLin r c k m)
     · exact hM0 e he
     · rfl
     · rfl
+  · intro e he
+    simp only [List.mem_append, List.mem_cons, List.mem_nil_iff, or_false] at he
+    rcases he with he | rfl | rfl
+    · obtain ⟨f, _, hef⟩ := hM1 e he
+      rw [hef]; rfl
+    · show buf = (c.drop (fn1 * H)).take H
+      rw [hdrop1, List.take_of_length_le]
+      rw [← hdrop1]; omega
+    · show fn1 + 1 = c.length / H + 1
+      exact hnf.symm
   · simp only [Repo.emit, hfn, hfn2]
     rw [hev0]; simp
   · simp only [Repo.emit, hfn, hfn2]
@@ -466,13 +553,17 @@ theorem storeLin_full (st : Store) (c : List HData) (d0 : HData) (hd0 : c[0]? = 
 theorem clean_lin {r : Repo} {c : List HData} {k m : Nat} (hp : PLin r c k m) (depth : Int) (hd : 0 ≤ depth) :
     ∃ (r' : Repo) (k' : Nat), cleanWith r depth = (r', none) ∧ PLin r' c k' c.length ∧ k ≤ k' ∧
       r'.store.index = r.store.index ∧ r'.invalid = r.invalid ∧ r'.cfg = r.cfg ∧
-      r'.disableDifficulty = r.disableDifficulty ∧ r'.disableSplit = r.disableSplit := by
+      r'.disableDifficulty = r.disableDifficulty ∧ r'.disableSplit = r.disableSplit ∧
+      ∃ (M : List StoreEv) (d0 : HData), c[0]? = some d0 ∧ (∀ e ∈ M, e.isMain = true ∧ MainEvOf c e) ∧
+        FilesExact (M.foldl Store.apply r.store).main c (c.length / H + 1) ∧
+        r'.events = r.events ++ (M ++ [.branchWrite d0.hdr.id { first := d0.hdr, parentHeight := -1, offset := 1, headers := c },
+          .invalidWrite r.invalid]) := by
   obtain ⟨d0, hd0⟩ := hp.head
   have hcons : consolidate r = .ok r := by
     apply C10_consolidate_noop_aux
     rw [hp.branches, hp.longest]
     simp [hp.ph]
-  obtain ⟨r2, M, hsave, hfiles, hM, hev, hst, f1, f2, f3, f4, f5, f6, f7, f8⟩ := saveMain_lin r c k m hp
+  obtain ⟨r2, M, hsave, hfiles, hM, hMc, hev, hst, f1, f2, f3, f4, f5, f6, f7, f8⟩ := saveMain_lin r c k m hp
   obtain ⟨q1, q2, q3, q4⟩ := foldl_main_frame M hM r.store
   rw [← hst] at q1 q2 q3 q4
   obtain ⟨r3, hbs, hr3, hr3b⟩ := branchSave_lin hp d0 hd0 r2 f1 q2
@@ -514,6 +605,10 @@ theorem clean_lin {r : Repo} {c : List HData} {k m : Nat} (hp : PLin r c k m) (d
       r3.cfg = r.cfg ∧ r3.invalid = r.invalid ∧ r3.disableDifficulty = r.disableDifficulty ∧ r3.disableSplit = r.disableSplit := by
     rw [hr3]; exact ⟨f1, f2, f3, f4, f6, f5, f7, f8⟩
   obtain ⟨a1, a2, a3, a4, a5, a6, a7, a8⟩ := hr3f
+  have hMboth : ∀ e ∈ M, e.isMain = true ∧ MainEvOf c e := fun e he => ⟨hM e he, hMc e he⟩
+  have hfilesM : FilesExact (M.foldl Store.apply r.store).main c (c.length / H + 1) := by rw [← hst]; exact hfiles
+  have hev3 : r3.events = r.events ++ (M ++ [.branchWrite d0.hdr.id { first := d0.hdr, parentHeight := -1, offset := 1, headers := c }]) := by
+    rw [hr3]; show r2.events ++ [_] = _; rw [hev]; simp
   by_cases hpr : (k : Int) < (c.length : Int) - 1 - depth
   · simp only [hpr, ↓reduceIte]
     -- memory is pruned
@@ -522,7 +617,10 @@ theorem clean_lin {r : Repo} {c : List HData} {k m : Nat} (hp : PLin r c k m) (d
     rw [hcnt]
     have hkc : k + cnt < c.length := by omega
     obtain ⟨p1, p2, p3, p4, p5, p6⟩ := pruneBranch_lin hp cnt hkc
-    refine ⟨_, k + cnt, rfl, ?_, by omega, ?_, ?_, ?_, ?_, ?_⟩
+    refine ⟨_, k + cnt, rfl, ?_, by omega, ?_, ?_, ?_, ?_, ?_, M, d0, hd0, hMboth, hfilesM, ?_⟩
+    rotate_left 6
+    · show r3.events ++ [StoreEv.invalidWrite r3.invalid] = _
+      rw [hev3, a6]; simp
     · have hbr' : ∀ (x : Repo), x.arena = (r3.arena.set 0 (pruneBranch (r.br 0) cnt)) → x.br 0 = pruneBranch (r.br 0) cnt := by
         intro x hx
         unfold Repo.br
@@ -547,7 +645,10 @@ theorem clean_lin {r : Repo} {c : List HData} {k m : Nat} (hp : PLin r c k m) (d
     · show r3.disableDifficulty = r.disableDifficulty; exact a7
     · show r3.disableSplit = r.disableSplit; exact a8
   · simp only [hpr, ↓reduceIte]
-    refine ⟨_, k, rfl, ?_, Nat.le_refl _, ?_, ?_, ?_, ?_, ?_⟩
+    refine ⟨_, k, rfl, ?_, Nat.le_refl _, ?_, ?_, ?_, ?_, ?_, M, d0, hd0, hMboth, hfilesM, ?_⟩
+    rotate_left 6
+    · show r3.events ++ [StoreEv.invalidWrite r3.invalid] = _
+      rw [hev3, a6]; simp
     · exact hp.reframe (r' := saveInvalid { r3 with branches := [] ++ [0] }) a1 (by show [] ++ [0] = r.branches; rw [hp.branches]; rfl)
         a3 a4 a5 (Nat.le_refl _) (Or.inr hp.kn) (hsl _ rfl)
     · show r3.store.index = r.store.index; exact hidx3
@@ -561,13 +662,17 @@ theorem clean_lin {r : Repo} {c : List HData} {k m : Nat} (hp : PLin r c k m) (d
 theorem save_lin {r : Repo} {c : List HData} {k m : Nat} (hp : PLin r c k m) :
     ∃ (r' : Repo) (d0 : HData), save r = (r', none) ∧ PLin r' c k c.length ∧ c[0]? = some d0 ∧
       r'.store.index = some [d0.hdr.id] ∧ r'.store.invalid = some r.invalid ∧ r'.invalid = r.invalid ∧ r'.cfg = r.cfg ∧
-      r'.disableDifficulty = r.disableDifficulty ∧ r'.disableSplit = r.disableSplit := by
+      r'.disableDifficulty = r.disableDifficulty ∧ r'.disableSplit = r.disableSplit ∧
+      ∃ (M : List StoreEv), (∀ e ∈ M, e.isMain = true ∧ MainEvOf c e) ∧
+        FilesExact (M.foldl Store.apply r.store).main c (c.length / H + 1) ∧
+        r'.events = r.events ++ (M ++ [.branchWrite d0.hdr.id { first := d0.hdr, parentHeight := -1, offset := 1, headers := c },
+          .indexWrite [d0.hdr.id], .invalidWrite r.invalid]) := by
   obtain ⟨d0, hd0⟩ := hp.head
   have hcons : consolidate r = .ok r := by
     apply C10_consolidate_noop_aux
     rw [hp.branches, hp.longest]
     simp [hp.ph]
-  obtain ⟨r2, M, hsave, hfiles, hM, hev, hst, f1, f2, f3, f4, f5, f6, f7, f8⟩ := saveMain_lin r c k m hp
+  obtain ⟨r2, M, hsave, hfiles, hM, hMc, hev, hst, f1, f2, f3, f4, f5, f6, f7, f8⟩ := saveMain_lin r c k m hp
   obtain ⟨q1, q2, q3, q4⟩ := foldl_main_frame M hM r.store
   rw [← hst] at q1 q2 q3 q4
   obtain ⟨r3, hbs, hr3, hr3b⟩ := branchSave_lin hp d0 hd0 r2 f1 q2
@@ -589,7 +694,10 @@ theorem save_lin {r : Repo} {c : List HData} {k m : Nat} (hp : PLin r c k m) :
       r3.cfg = r.cfg ∧ r3.invalid = r.invalid ∧ r3.disableDifficulty = r.disableDifficulty ∧ r3.disableSplit = r.disableSplit := by
     rw [hr3]; exact ⟨f1, f2, f3, f4, f6, f5, f7, f8⟩
   obtain ⟨a1, a2, a3, a4, a5, a6, a7, a8⟩ := hr3f
-  refine ⟨_, d0, rfl, ?_, hd0, rfl, ?_, ?_, ?_, ?_, ?_⟩
+  refine ⟨_, d0, rfl, ?_, hd0, rfl, ?_, ?_, ?_, ?_, ?_, M, fun e he => ⟨hM e he, hMc e he⟩, by rw [← hst]; exact hfiles, ?_⟩
+  rotate_left 6
+  · show (r3.events ++ [StoreEv.indexWrite [d0.hdr.id]]) ++ [StoreEv.invalidWrite r3.invalid] = _
+    rw [a6, hr3]; show ((r2.events ++ [_]) ++ [_]) ++ [_] = _; rw [hev]; simp
   · apply hp.reframe (r' := saveInvalid (r3.emit (.indexWrite [d0.hdr.id]))) a1 a2 a3 a4 a5 (Nat.le_refl _) (Or.inr hp.kn)
     apply storeLin_full _ c d0 hd0
     · show r3.store.mainV0 = []; exact hv03
@@ -814,7 +922,7 @@ theorem addToBranch_lin {r : Repo} {c : List HData} {k m : Nat} (hp : PLin r c k
     refine ⟨d0, ?_, by rw [htake]; exact hb, hi⟩
     rw [List.getElem?_append_left (by have := getElem?_lt _ _ _ hd0; omega)]; exact hd0
 
-theorem getLast?_getElem? {α : Type} (c : List α) (l : α) (h : c.getLast? = some l) : c[c.length - 1]? = some l := by
+theorem getLast?_getElem_lin {α : Type} (c : List α) (l : α) (h : c.getLast? = some l) : c[c.length - 1]? = some l := by
   rw [List.getLast?_eq_getElem?] at h; exact h
 
 /-- **one submission in the linear world** — including the automatic clean when the new height is a
@@ -848,7 +956,7 @@ theorem step_lin {r : Repo} {c : List HData} {k m : Nat} (hp : PLin r c k m) (h 
         rw [hp.hdrs, getLast?_drop_of_lt c k hkn] at this
         exact this
       have hposl : posOf c h.prev = some (c.length - 1) :=
-        (posOf_some_iff c hp.nodup h.prev (c.length - 1)).mpr ⟨lst, getLast?_getElem? c lst hlast, hprev⟩
+        (posOf_some_iff c hp.nodup h.prev (c.length - 1)).mpr ⟨lst, getLast?_getElem_lin c lst hlast, hprev⟩
       have hph : ph' = (c.length : Int) - 1 := by
         rw [hp.hmap h.prev, hposl] at hg
         simp only at hg
@@ -882,9 +990,533 @@ theorem step_lin {r : Repo} {c : List HData} {k m : Nat} (hp : PLin r c k m) (h 
         have hidx1 : (addToBranch r h 0 ((c.length : Int) - 1) lst w).store.index = r.store.index := rfl
         have hcfg1 : (addToBranch r h 0 ((c.length : Int) - 1) lst w).cfg = r.cfg := rfl
         split
-        · obtain ⟨r', k', hcl, hp', _, hi', _, hc', _, _⟩ := clean_lin hp1 (Facts.pruneDepth : Int) (by decide)
+        · obtain ⟨r', k', hcl, hp', _, hi', _, hc', _, _, _⟩ := clean_lin hp1 (Facts.pruneDepth : Int) (by decide)
           rw [hcl]
           exact ⟨_, k', _, hp', Or.inr ⟨_, rfl, rfl⟩, by rw [hi', hidx1], by rw [hc', hcfg1]⟩
         · exact ⟨_, k, m, hp1, Or.inr ⟨_, rfl, rfl⟩, hidx1, hcfg1⟩
+
+/-! ### histories of operations -/
+
+inductive LinOp
+  | submit (h : Hdr) (ok : Bool)
+  | clean (depth : Int)
+  | save
+  | load (depth : Int) (g : Hdr)
+
+def applyOp (r : Repo) : LinOp → Repo
+  | .submit h ok => (processHeader r h ok).1
+  | .clean d => (cleanWith r d).1
+  | .save => (save r).1
+  | .load d g => (load r d g).1
+
+/-- what a history must satisfy to stay in the linear world: accepted headers extend the tip and are
+    new; depths are not negative; Load only after some Save wrote the index. -/
+def LinHist : Repo → List LinOp → Prop
+  | _, [] => True
+  | r, op :: rest =>
+    (match op with
+     | .submit h ok => LinStep r h ok
+     | .clean d => 0 ≤ d
+     | .save => True
+     | .load d _ => 0 ≤ d ∧ r.store.index.isSome = true) ∧
+    LinHist (applyOp r op) rest
+
+def runOps (r : Repo) (ops : List LinOp) : Repo := ops.foldl applyOp r
+
+theorem take_length_self {α : Type} (c : List α) : c.take c.length = c := List.take_length
+
+/-- **the linear world is closed under every operation**: after ANY history of submissions (with the
+    automatic clean), Cleans, Saves and Loads the repository is again a linear world of some chain. -/
+theorem plin_history (ops : List LinOp) : ∀ (r : Repo) (c : List HData) (k m : Nat), PLin r c k m → LinHist r ops →
+    ∃ (c' : List HData) (k' m' : Nat), PLin (runOps r ops) c' k' m' := by
+  induction ops with
+  | nil => intro r c k m hp _; exact ⟨c, k, m, hp⟩
+  | cons op rest ih =>
+    intro r c k m hp hh
+    obtain ⟨hop, hrest⟩ := hh
+    simp only [runOps, List.foldl_cons]
+    cases op with
+    | submit h ok =>
+      obtain ⟨c', k', m', hp', _, _, _⟩ := step_lin hp h ok hop
+      exact ih _ c' k' m' hp' hrest
+    | clean d =>
+      obtain ⟨r', k', hcl, hp', _⟩ := clean_lin hp d hop
+      have : applyOp r (.clean d) = r' := by simp only [applyOp, hcl]
+      rw [this] at hrest ⊢
+      exact ih _ c k' _ hp' hrest
+    | save =>
+      obtain ⟨r', d0, hs, hp', _⟩ := save_lin hp
+      have : applyOp r .save = r' := by simp only [applyOp, hs]
+      rw [this] at hrest ⊢
+      exact ih _ c k _ hp' hrest
+    | load d g =>
+      obtain ⟨hd, hidx⟩ := hop
+      have hm : 0 < m := by
+        rcases Nat.eq_zero_or_pos m with h0 | h0
+        · have := (hp.store.empty h0).2
+          rw [this] at hidx; cases hidx
+        · exact h0
+      obtain ⟨rl, k', hl, hp', _⟩ := load_lin hp hm hidx d hd g
+      have : applyOp r (.load d g) = rl := by simp only [applyOp, hl]
+      rw [this] at hrest ⊢
+      exact ih _ _ k' m hp' hrest
+
+/-- the genesis-only repository is a linear world. -/
+theorem plin_genesis : PLin genesisRepo genesisRepo.arena[0].headers 0 0 := by
+  refine ⟨by simp [genesisRepo], by simp [genesisRepo], trivial, by simp [genesisRepo], by simp, Or.inl ⟨rfl, rfl⟩,
+    rfl, rfl, rfl, rfl, rfl, rfl, rfl, ?_, ?_, ?_, ?_, ⟨rfl, fun _ => ⟨rfl, rfl⟩, fun h => by omega, fun h => by omega⟩⟩
+  · intro d hd
+    simp only [genesisRepo, List.getElem_cons_zero, List.getElem?_cons_zero, Option.some.injEq] at hd
+    subst hd; rfl
+  · intro id
+    by_cases h0 : id = 0
+    · subst h0; decide
+    · have : posOf genesisRepo.arena[0].headers id = none := by
+        simp [posOf, genesisRepo, List.findIdx?_cons]; omega
+      rw [this]
+      show HMap.get? [(0, 0)] id = none
+      simp only [HMap.get?, List.lookup]
+      split
+      · rename_i heq; simp at heq; omega
+      · rfl
+  · intro id
+    by_cases h0 : id = 0
+    · subst h0; decide
+    · have : posOf genesisRepo.arena[0].headers id = none := by
+        simp [posOf, genesisRepo, List.findIdx?_cons]; omega
+      rw [this]
+      show HMap.get? [(0, 0)] id = none
+      simp only [HMap.get?, List.lookup]
+      split
+      · rename_i heq; simp at heq; omega
+      · rfl
+  · intro d hd
+    simp only [genesisRepo, List.getElem_cons_zero, List.getElem?_cons_zero, Option.some.injEq] at hd
+    subst hd; rfl
+
+/-! ### storage images in the middle of a Save or Clean -/
+
+/-- the main-chain files serve every header of `c'` at its height (they may hold more). -/
+def MainAgrees (main : List (Nat × List HData)) (c' : List HData) : Prop :=
+  ∀ h d, c'[h]? = some d → ∃ recs, List.lookup (h / H) main = some recs ∧ recs[h % H]? = some d
+
+theorem mainAgrees_of_exact (main : List (Nat × List HData)) (c' : List HData)
+    (hf : FilesExact main c' (c'.length / H + 1)) : MainAgrees main c' := by
+  intro h d hd
+  have hlt : h < c'.length := getElem?_lt _ _ _ hd
+  have hH : H = 1000 := rfl
+  refine ⟨_, hf (h / H) (by have : h / H ≤ c'.length / H := Nat.div_le_div_right (by omega); omega), ?_⟩
+  rw [slice_getElem? _ _ _ (Nat.mod_lt _ H_pos)]
+  have : h / H * H + h % H = h := by rw [hH]; omega
+  rw [this]; exact hd
+
+theorem mainAgrees_apply (st : Store) (c : List HData) (m : Nat) (hm : m ≤ c.length) (e : StoreEv) (he : MainEvOf c e)
+    (ha : MainAgrees st.main (c.take m)) : MainAgrees (st.apply e).main (c.take m) := by
+  have hH : H = 1000 := rfl
+  intro h d hd
+  have hlt : h < m := by
+    have := getElem?_lt _ _ _ hd
+    rw [List.length_take] at this; omega
+  have hcd : c[h]? = some d := by
+    rw [List.getElem?_take] at hd
+    simp only [hlt, ↓reduceIte] at hd; exact hd
+  obtain ⟨recs, hl, hr⟩ := ha h d hd
+  cases e with
+  | mainWrite f recs' =>
+    simp only [MainEvOf] at he
+    simp only [Store.apply, lookup_assocSet]
+    by_cases hf : h / H = f
+    · simp only [hf, ↓reduceIte]
+      refine ⟨recs', rfl, ?_⟩
+      rw [he, slice_getElem? _ _ _ (Nat.mod_lt _ H_pos)]
+      have : f * H + h % H = h := by rw [← hf, hH]; omega
+      rw [this]; exact hcd
+    · simp only [hf, ↓reduceIte]
+      exact ⟨recs, hl, hr⟩
+  | mainRemove f =>
+    simp only [MainEvOf] at he
+    simp only [Store.apply]
+    have hne : h / H ≠ f := by
+      rw [he]
+      have : h / H ≤ c.length / H := Nat.div_le_div_right (by omega)
+      omega
+    rw [lookup_filter_ne' _ _ _ hne]
+    exact ⟨recs, hl, hr⟩
+  | branchWrite k bf => exact ⟨recs, hl, hr⟩
+  | indexWrite l => exact ⟨recs, hl, hr⟩
+  | invalidWrite l => exact ⟨recs, hl, hr⟩
+
+theorem mainAgrees_foldl (c : List HData) (m : Nat) (hm : m ≤ c.length) (E : List StoreEv) (hE : ∀ e ∈ E, MainEvOf c e)
+    (st : Store) (ha : MainAgrees st.main (c.take m)) : MainAgrees (E.foldl Store.apply st).main (c.take m) := by
+  induction E generalizing st with
+  | nil => exact ha
+  | cons e rest ih =>
+    simp only [List.foldl_cons]
+    exact ih (fun x hx => hE x (List.mem_cons_of_mem _ hx)) _
+      (mainAgrees_apply st c m hm e (hE e (List.mem_cons_self ..)) ha)
+
+/-- what a repository reports when it is the chain `c'`. -/
+structure ObsChain (rl : Repo) (c' : List HData) : Prop where
+  height : tipHeight rl = (c'.length : Int) - 1
+  tip : ∀ l, c'.getLast? = some l → tipId rl = l.hdr.id ∧ tipWork rl = l.work
+  hdr : ∀ (h : Nat) (d : HData), c'[h]? = some d → headerAt rl h = .ok d.hdr
+
+theorem PLin.obsChain {r : Repo} {c : List HData} {k m : Nat} (hp : PLin r c k m) : ObsChain r c := by
+  obtain ⟨h1, h2, h3, _, _⟩ := plin_obs hp
+  exact ⟨h1, h2, h3⟩
+
+/-- the weak form of the linear world that a crash image loads into: the branch in memory and main files
+    that serve the pruned heights (the height map may know more hashes than the chain holds). -/
+theorem obs_of_parts (rl : Repo) (c' : List HData) (k' : Nat) (hk : k' < c'.length) (ha : rl.arena = [rl.br 0])
+    (hl : rl.longest = 0) (hb : BrLin (rl.br 0) c' k') (hm : MainAgrees rl.store.main c') : ObsChain rl c' := by
+  have hH : H = 1000 := rfl
+  have hheight : (rl.br rl.longest).height = (c'.length : Int) - 1 := by
+    rw [hl]; unfold Branch.height
+    rw [hb.ph, hb.off, hb.hdrs, List.length_drop]; omega
+  have hat : ∀ h : Int, rl.at 0 h = if (k' : Int) ≤ h then getI c' h else none := by
+    intro h
+    rw [at_single rl (rl.br 0) ha hb.par h, hb.ph, hb.off, hb.hdrs]
+    by_cases hk2 : (k' : Int) ≤ h
+    · have : h > -1 := by omega
+      rw [if_pos this, if_pos hk2]
+      unfold getI
+      have h1 : ¬ (h - -1 - ((k' : Int) + 1) < 0) := by omega
+      have h2 : ¬ (h < 0) := by omega
+      simp only [h1, h2, ↓reduceIte, List.getElem?_drop]
+      congr 1
+      omega
+    · rw [if_neg hk2]
+      split
+      · unfold getI
+        have : h - -1 - ((k' : Int) + 1) < 0 := by omega
+        simp only [this, ↓reduceIte]
+      · rfl
+  refine ⟨hheight, ?_, ?_⟩
+  · intro l hll
+    unfold tipId tipWork Repo.lastOf Branch.last?
+    rw [hl, hb.hdrs, getLast?_drop_of_lt c' k' hk, hll]
+    exact ⟨rfl, rfl⟩
+  · intro h d hd
+    have hlt : h < c'.length := getElem?_lt _ _ _ hd
+    unfold headerAt
+    rw [hheight]
+    have hnb : ¬ ((h : Int) > (c'.length : Int) - 1) := by omega
+    rw [if_neg hnb, hl, hat]
+    by_cases hk2 : (k' : Int) ≤ (h : Int)
+    · rw [if_pos hk2]
+      unfold getI
+      have : ¬ ((h : Int) < 0) := by omega
+      simp only [this, ↓reduceIte, Int.toNat_natCast, hd]
+    · rw [if_neg hk2]
+      simp only
+      have hfile : Int.tdiv (h : Int) hpf = ((h / H : Nat) : Int) := by rw [hpf_eq]; rfl
+      rw [hfile]
+      unfold getData
+      rw [Int.toNat_natCast]
+      obtain ⟨recs, hlk, hr⟩ := hm h d hd
+      rw [hlk]
+      simp only
+      have hidx : (h : Int) - ((h / H : Nat) : Int) * hpf = ((h % H : Nat) : Int) := by
+        rw [hpf_eq, hH]; omega
+      rw [hidx]
+      unfold getI
+      have : ¬ (((h % H : Nat) : Int) < 0) := by omega
+      simp only [this, ↓reduceIte, Int.toNat_natCast, hr]
+
+/-- **Load of an image whose index names the root file of `c'` and whose main files serve `c'`** (they
+    may already hold later headers): succeeds and reports `c'`. -/
+theorem load_weak (rs : Repo) (c' : List HData) (f : Hdr) (depth : Int) (hd : 0 ≤ depth) (g : Hdr)
+    (hidx : rs.store.index = some [f.id])
+    (hbrs : rs.store.branches = [(f.id, { first := f, parentHeight := -1, offset := 1, headers := c' })])
+    (hne : c' ≠ []) (hnd : (c'.map (·.hdr.id)).Nodup) (hm : MainAgrees rs.store.main c') :
+    ∃ rl, load rs depth g = (rl, none) ∧ ObsChain rl c' := by
+  have hH : H = 1000 := rfl
+  rw [load_linear_shape rs (fileBranch c' f) depth g hidx hbrs rfl rfl hne hd]
+  obtain ⟨k', hk', hbl, _⟩ := loadedRoot_brLin c' f depth hd hne hnd
+  have hbr : (loadedBase rs (fileBranch c' f) depth).br 0 = loadedRoot (fileBranch c' f) depth := rfl
+  have hlow : ((loadedBase rs (fileBranch c' f) depth).br (loadedBase rs (fileBranch c' f) depth).longest).prunedLowest = (k' : Int) := by
+    show (loadedRoot (fileBranch c' f) depth).prunedLowest = _
+    unfold Branch.prunedLowest; rw [hbl.ph, hbl.off]; omega
+  obtain ⟨hmp, hhist⟩ := loadHistorical_ok (loadedBase rs (fileBranch c' f) depth) k' hlow (by
+    intro gf hgf
+    show (List.lookup gf rs.store.main).isSome = true
+    have hlt : gf * H < c'.length := by omega
+    obtain ⟨d, hdd⟩ : ∃ d, c'[gf * H]? = some d := ⟨c'[gf * H], List.getElem?_eq_getElem hlt⟩
+    obtain ⟨recs, hlk, _⟩ := hm (gf * H) d hdd
+    have : gf * H / H = gf := Nat.mul_div_cancel _ H_pos
+    rw [this] at hlk
+    rw [hlk]; rfl)
+  rw [hhist]
+  refine ⟨_, rfl, ?_⟩
+  exact obs_of_parts _ c' k' hk' rfl rfl (by rw [show (withHeights (loadedBase rs (fileBranch c' f) depth) hmp).br 0 = loadedRoot (fileBranch c' f) depth from rfl]; exact hbl) hm
+
+/-- what Load makes of a repository whose storage has no branch index: the genesis header only. -/
+def GenesisOnly (rl : Repo) (g : Hdr) (w : Nat) : Prop :=
+  tipHeight rl = 0 ∧ tipId rl = g.id ∧ tipWork rl = w
+
+/-- the outcome of loading a storage image of the linear world. -/
+inductive CrashOutcome (rl : Repo) (g : Hdr) (w : Nat) (cOld c : List HData) (hadIndex : Bool) : Prop
+  | genesis (h : hadIndex = false) (hg : GenesisOnly rl g w)
+  | old (ho : ObsChain rl cOld)
+  | new (hn : ObsChain rl c)
+
+/-- an image that still holds the OLD root branch file. -/
+theorem crash_image_old {r : Repo} {c : List HData} {k m : Nat} (hp : PLin r c k m) (S : Store) (depth : Int)
+    (hd : 0 ≤ depth) (g : Hdr) (w : Nat) (hg : Work.blockWork g.bits = some w)
+    (hv0 : S.mainV0 = []) (hbr : S.branches = r.store.branches) (hix : S.index = r.store.index)
+    (hma : 0 < m → MainAgrees S.main (c.take m)) :
+    ∃ rl, load { r with store := S } depth g = (rl, none) ∧
+      CrashOutcome rl g w (c.take m) c r.store.index.isSome := by
+  cases hi : r.store.index with
+  | none =>
+    obtain ⟨rl, hl, _, _, h1, h2, h3⟩ := load_noindex { r with store := S } depth g w (by show S.index = none; rw [hix, hi]) hv0 hg
+    exact ⟨rl, hl, .genesis rfl ⟨h1, h2, h3⟩⟩
+  | some idx =>
+    have hm : 0 < m := by
+      rcases Nat.eq_zero_or_pos m with h0 | h0
+      · have := (hp.store.empty h0).2
+        rw [hi] at this; cases this
+      · exact h0
+    obtain ⟨d0, hd0, hbrs, hidx⟩ := hp.store.br hm
+    have hidx' : r.store.index = some [d0.hdr.id] := by
+      rcases hidx with h | h
+      · rw [hi] at h; cases h
+      · exact h
+    have hmle := hp.mle
+    have hlen : (c.take m).length = m := by rw [List.length_take]; omega
+    have hne : c.take m ≠ [] := by
+      intro h; have := congrArg List.length h; rw [hlen] at this; simp at this; omega
+    have hnd : ((c.take m).map (·.hdr.id)).Nodup := by
+      rw [List.map_take]; exact hp.nodup.sublist (List.take_sublist _ _)
+    obtain ⟨rl, hl, ho⟩ := load_weak { r with store := S } (c.take m) d0.hdr depth hd g
+      (by show S.index = _; rw [hix, hidx']) (by show S.branches = _; rw [hbr, hbrs]) hne hnd (hma hm)
+    exact ⟨rl, hl, .old ho⟩
+
+/-- an image that already holds the NEW root branch file. -/
+theorem crash_image_new {r : Repo} {c : List HData} {k m : Nat} (hp : PLin r c k m) (S : Store) (depth : Int)
+    (hd : 0 ≤ depth) (g : Hdr) (w : Nat) (hg : Work.blockWork g.bits = some w) (d0 : HData) (hd0 : c[0]? = some d0)
+    (hv0 : S.mainV0 = [])
+    (hbr : S.branches = [(d0.hdr.id, { first := d0.hdr, parentHeight := -1, offset := 1, headers := c })])
+    (hix : S.index = r.store.index ∨ S.index = some [d0.hdr.id])
+    (hma : MainAgrees S.main c) :
+    ∃ rl, load { r with store := S } depth g = (rl, none) ∧
+      CrashOutcome rl g w (c.take m) c r.store.index.isSome := by
+  have hidxS : S.index = none ∧ r.store.index = none ∨ S.index = some [d0.hdr.id] := by
+    rcases hix with h | h
+    · cases hi : r.store.index with
+      | none => left; exact ⟨by rw [h, hi], rfl⟩
+      | some idx =>
+        right
+        have hm : 0 < m := by
+          rcases Nat.eq_zero_or_pos m with h0 | h0
+          · have := (hp.store.empty h0).2
+            rw [hi] at this; cases this
+          · exact h0
+        obtain ⟨d, hdd, _, hidx⟩ := hp.store.br hm
+        rw [hd0] at hdd; cases hdd
+        rcases hidx with h2 | h2
+        · rw [hi] at h2; cases h2
+        · rw [h, h2]
+    · right; exact h
+  rcases hidxS with ⟨h1, h2⟩ | h1
+  · obtain ⟨rl, hl, _, _, q1, q2, q3⟩ := load_noindex { r with store := S } depth g w h1 hv0 hg
+    exact ⟨rl, hl, .genesis (by rw [h2]; rfl) ⟨q1, q2, q3⟩⟩
+  · obtain ⟨rl, hl, ho⟩ := load_weak { r with store := S } c d0.hdr depth hd g h1 hbr hp.ne hp.nodup hma
+    exact ⟨rl, hl, .new ho⟩
+
+/-- the root branch file holding the whole chain. -/
+abbrev fullFile (d0 : HData) (c : List HData) : BranchFile :=
+  { first := d0.hdr, parentHeight := -1, offset := 1, headers := c }
+
+/-- the events that follow the root branch file in a Save or Clean. -/
+def TailEv (key : Nat) : StoreEv → Prop
+  | .indexWrite l => l = [key]
+  | .invalidWrite _ => True
+  | _ => False
+
+theorem tail_fold_frame (key : Nat) (T : List StoreEv) (hT : ∀ e ∈ T, TailEv key e) (st : Store) :
+    (T.foldl Store.apply st).main = st.main ∧ (T.foldl Store.apply st).branches = st.branches ∧
+    (T.foldl Store.apply st).mainV0 = st.mainV0 ∧
+    ((T.foldl Store.apply st).index = st.index ∨ (T.foldl Store.apply st).index = some [key]) := by
+  induction T generalizing st with
+  | nil => exact ⟨rfl, rfl, rfl, Or.inl rfl⟩
+  | cons e rest ih =>
+    simp only [List.foldl_cons]
+    obtain ⟨h1, h2, h3, h4⟩ := ih (fun x hx => hT x (List.mem_cons_of_mem _ hx)) (st.apply e)
+    have he := hT e (List.mem_cons_self ..)
+    cases e with
+    | indexWrite l =>
+      simp only [TailEv] at he
+      subst he
+      refine ⟨h1, h2, h3, ?_⟩
+      rcases h4 with h4 | h4
+      · right; rw [h4]; rfl
+      · right; exact h4
+    | invalidWrite l => exact ⟨h1, h2, h3, h4⟩
+    | mainWrite f recs => cases he
+    | mainRemove f => cases he
+    | branchWrite k bf => cases he
+
+/-- **a crash at any write of a Save or a Clean in the linear world.** The write sequence is: main-chain
+    file events `M`, the root branch file, then index and/or invalid list.  For EVERY prefix, Load of the
+    image succeeds and reports the genesis-only chain (only if no index was ever written), the chain as it
+    was stored before (`c.take m`), or the chain being stored (`c`). -/
+theorem crash_lin {r : Repo} {c : List HData} {k m : Nat} (hp : PLin r c k m) (depth : Int) (hd : 0 ≤ depth)
+    (g : Hdr) (w : Nat) (hg : Work.blockWork g.bits = some w) (d0 : HData) (hd0 : c[0]? = some d0)
+    (M T : List StoreEv) (hM : ∀ e ∈ M, e.isMain = true ∧ MainEvOf c e)
+    (hfiles : FilesExact (M.foldl Store.apply r.store).main c (c.length / H + 1))
+    (hT : ∀ e ∈ T, TailEv d0.hdr.id e) :
+    ∀ n, ∃ rl,
+      load { r with store := ((M ++ .branchWrite d0.hdr.id (fullFile d0 c) :: T).take n).foldl Store.apply r.store } depth g
+        = (rl, none) ∧
+      CrashOutcome rl g w (c.take m) c r.store.index.isSome := by
+  intro n
+  have hmle := hp.mle
+  by_cases hn : n ≤ M.length
+  · -- inside the main-file writes
+    rw [List.take_append_of_le_length hn]
+    have hsub : ∀ e ∈ M.take n, e.isMain = true ∧ MainEvOf c e := fun e he => hM e (List.mem_of_mem_take he)
+    obtain ⟨q1, q2, _, q4⟩ := foldl_main_frame (M.take n) (fun e he => (hsub e he).1) r.store
+    apply crash_image_old hp _ depth hd g w hg (q4 hp.store.v0) q2 q1
+    intro hm
+    apply mainAgrees_foldl c m hmle (M.take n) (fun e he => (hsub e he).2)
+    apply mainAgrees_of_exact
+    have : (c.take m).length = m := by rw [List.length_take]; omega
+    rw [this]; exact hp.store.main hm
+  · -- the root branch file has been written
+    have hn' : M.length < n := by omega
+    obtain ⟨j, hj⟩ : ∃ j, n = M.length + (j + 1) := ⟨n - M.length - 1, by omega⟩
+    rw [hj, List.take_append, List.take_of_length_le (by omega)]
+    have : M.length + (j + 1) - M.length = j + 1 := by omega
+    rw [this, List.take_succ_cons, List.foldl_append, List.foldl_cons]
+    obtain ⟨q1, q2, _, q4⟩ := foldl_main_frame M (fun e he => (hM e he).1) r.store
+    obtain ⟨t1, t2, t3, t4⟩ := tail_fold_frame d0.hdr.id (T.take j) (fun e he => hT e (List.mem_of_mem_take he))
+      ((M.foldl Store.apply r.store).apply (.branchWrite d0.hdr.id (fullFile d0 c)))
+    have hbr0 : r.store.branches = [] ∨ ∃ bf, r.store.branches = [(d0.hdr.id, bf)] := by
+      rcases Nat.eq_zero_or_pos m with h0 | h0
+      · left; exact (hp.store.empty h0).1
+      · obtain ⟨d, hdd, hb, _⟩ := hp.store.br h0
+        rw [hd0] at hdd; cases hdd
+        exact Or.inr ⟨_, hb⟩
+    apply crash_image_new hp _ depth hd g w hg d0 hd0
+    · rw [t3]; exact q4 hp.store.v0
+    · rw [t2]
+      show assocSet (M.foldl Store.apply r.store).branches _ _ = _
+      rw [q2]
+      rcases hbr0 with h | ⟨bf, h⟩
+      · rw [h]; rfl
+      · rw [h]; simp [assocSet]
+    · rcases t4 with h | h
+      · left; rw [h]; exact q1
+      · right; exact h
+    · rw [t1]
+      apply mainAgrees_of_exact
+      exact hfiles
+
+/-! ### the property-level statements -/
+
+/-- two repositories that are linear worlds of the same chain report the same. -/
+theorem plin_same_obs {r r' : Repo} {c : List HData} {k m k' m' : Nat} (hp : PLin r c k m) (hp' : PLin r' c k' m') :
+    tipHeight r' = tipHeight r ∧ tipId r' = tipId r ∧ tipWork r' = tipWork r ∧
+    (∀ h : Nat, headerAt r' h = headerAt r h) ∧ (∀ id, hashHeight r' id = hashHeight r id) := by
+  obtain ⟨a1, a2, a3, a4, a5⟩ := plin_obs hp
+  obtain ⟨b1, b2, b3, b4, b5⟩ := plin_obs hp'
+  obtain ⟨l, hl⟩ : ∃ l, c.getLast? = some l := by
+    cases hc : c.getLast? with
+    | none => rw [List.getLast?_eq_none_iff] at hc; exact absurd hc hp.ne
+    | some l => exact ⟨l, rfl⟩
+  refine ⟨by rw [a1, b1], by rw [(a2 l hl).1, (b2 l hl).1], by rw [(a2 l hl).2, (b2 l hl).2], ?_, fun id => by rw [a5, b5]⟩
+  intro h
+  by_cases hlt : h < c.length
+  · have hd : c[h]? = some c[h] := List.getElem?_eq_getElem hlt
+    rw [a3 h _ hd, b3 h _ hd]
+  · rw [a4 h (by omega), b4 h (by omega)]
+
+/-- **Clean at any point of any linear history, any number of times, never changes what is reported.** -/
+theorem clean_obs_lin {r : Repo} {c : List HData} {k m : Nat} (hp : PLin r c k m) (depth : Int) (hd : 0 ≤ depth) :
+    ∃ (r' : Repo) (k' : Nat), cleanWith r depth = (r', none) ∧ PLin r' c k' c.length ∧
+      tipHeight r' = tipHeight r ∧ tipId r' = tipId r ∧ tipWork r' = tipWork r ∧
+      (∀ h : Nat, headerAt r' h = headerAt r h) ∧ (∀ id, hashHeight r' id = hashHeight r id) := by
+  obtain ⟨r', k', hcl, hp', _⟩ := clean_lin hp depth hd
+  exact ⟨r', k', hcl, hp', plin_same_obs hp hp'⟩
+
+/-- **Save then Load in the linear world, at any generation, with any load depth, restores what was
+    reported** (and the loaded repository is again a linear world of the same chain). -/
+theorem save_load_obs_lin {r : Repo} {c : List HData} {k m : Nat} (hp : PLin r c k m) (depth : Int) (hd : 0 ≤ depth) (g : Hdr) :
+    ∃ (rs rl : Repo) (k' : Nat), save r = (rs, none) ∧ load rs depth g = (rl, none) ∧ PLin rl c k' c.length ∧
+      tipHeight rl = tipHeight r ∧ tipId rl = tipId r ∧ tipWork rl = tipWork r ∧
+      (∀ h : Nat, headerAt rl h = headerAt r h) ∧ (∀ id, hashHeight rl id = hashHeight r id) ∧
+      rl.invalid = mergedInvalid rs.store rs.cfg ∧ rs.store.invalid = some r.invalid := by
+  obtain ⟨rs, d0, hs, hps, hd0, hidx, hinv, _⟩ := save_lin hp
+  have hpos : 0 < c.length := List.length_pos_iff.mpr hp.ne
+  obtain ⟨rl, k', hl, hpl, hli, _⟩ := load_lin hps hpos (by rw [hidx]; rfl) depth hd g
+  rw [take_length_self] at hpl
+  exact ⟨rs, rl, k', hs, hl, hpl, (plin_same_obs hp hpl).1, (plin_same_obs hp hpl).2.1, (plin_same_obs hp hpl).2.2.1,
+    (plin_same_obs hp hpl).2.2.2.1, (plin_same_obs hp hpl).2.2.2.2, hli, hinv⟩
+
+/-- **a crash at any write of ANY Save in the linear world.** -/
+theorem save_crash_lin {r : Repo} {c : List HData} {k m : Nat} (hp : PLin r c k m) (depth : Int) (hd : 0 ≤ depth)
+    (g : Hdr) (w : Nat) (hg : Work.blockWork g.bits = some w) :
+    ∃ (rs : Repo) (E : List StoreEv), save r = (rs, none) ∧ rs.events = r.events ++ E ∧
+      ∀ n, ∃ rl, load { r with store := (E.take n).foldl Store.apply r.store } depth g = (rl, none) ∧
+        CrashOutcome rl g w (c.take m) c r.store.index.isSome := by
+  obtain ⟨rs, d0, hs, _, hd0, _, _, _, _, _, _, M, hM, hfiles, hev⟩ := save_lin hp
+  refine ⟨rs, _, hs, hev, ?_⟩
+  exact crash_lin hp depth hd g w hg d0 hd0 M [.indexWrite [d0.hdr.id], .invalidWrite r.invalid] hM hfiles
+    (by intro e he; simp only [List.mem_cons, List.mem_nil_iff, or_false] at he; rcases he with rfl | rfl <;> simp [TailEv])
+
+/-- **a crash at any write of ANY Clean in the linear world** (the automatic one included). -/
+theorem clean_crash_lin {r : Repo} {c : List HData} {k m : Nat} (hp : PLin r c k m) (cdepth : Int) (hcd : 0 ≤ cdepth)
+    (depth : Int) (hd : 0 ≤ depth) (g : Hdr) (w : Nat) (hg : Work.blockWork g.bits = some w) :
+    ∃ (r' : Repo) (E : List StoreEv), cleanWith r cdepth = (r', none) ∧ r'.events = r.events ++ E ∧
+      ∀ n, ∃ rl, load { r with store := (E.take n).foldl Store.apply r.store } depth g = (rl, none) ∧
+        CrashOutcome rl g w (c.take m) c r.store.index.isSome := by
+  obtain ⟨r', k', hcl, _, _, _, _, _, _, _, M, d0, hd0, hM, hfiles, hev⟩ := clean_lin hp cdepth hcd
+  refine ⟨r', _, hcl, hev, ?_⟩
+  exact crash_lin hp depth hd g w hg d0 hd0 M [.invalidWrite r.invalid] hM hfiles
+    (by intro e he; simp only [List.mem_cons, List.mem_nil_iff, or_false] at he; subst he; simp [TailEv])
+
+/-! ### the history condition as a computation (for concrete examples) -/
+
+def linStepB (r : Repo) (h : Hdr) (ok : Bool) : Bool :=
+  match precheck r h ok with
+  | .inr (_, _, lst) => lst.hdr.id == h.prev && (r.heights.get? h.id).isNone
+  | .inl _ => true
+
+theorem linStep_of_B (r : Repo) (h : Hdr) (ok : Bool) (hb : linStepB r h ok = true) : LinStep r h ok := by
+  intro pb ph lst hpc
+  unfold linStepB at hb
+  rw [hpc] at hb
+  simp only [Bool.and_eq_true, beq_iff_eq] at hb
+  refine ⟨hb.1, ?_⟩
+  cases hg : r.heights.get? h.id with
+  | none => rfl
+  | some v => rw [hg] at hb; simp at hb
+
+def linHistB : Repo → List LinOp → Bool
+  | _, [] => true
+  | r, op :: rest =>
+    (match op with
+     | .submit h ok => linStepB r h ok
+     | .clean d => decide (0 ≤ d)
+     | .save => true
+     | .load d _ => decide (0 ≤ d) && r.store.index.isSome) &&
+    linHistB (applyOp r op) rest
+
+theorem linHist_of_B (ops : List LinOp) : ∀ r, linHistB r ops = true → LinHist r ops := by
+  induction ops with
+  | nil => intro r _; trivial
+  | cons op rest ih =>
+    intro r hb
+    simp only [linHistB, Bool.and_eq_true] at hb
+    refine ⟨?_, ih _ hb.2⟩
+    cases op with
+    | submit h ok => exact linStep_of_B r h ok hb.1
+    | clean d => simpa using hb.1
+    | save => trivial
+    | load d g =>
+      have := hb.1
+      simp only [Bool.and_eq_true, decide_eq_true_eq] at this
+      exact this
 
 end BRV.Repo
